@@ -6,9 +6,12 @@ cd "$(dirname "$0")"
 mkdir -p _build/ml _build/cases evidence replays
 cd coq
 coq_makefile -f _CoqProject -o Makefile > /dev/null
-timeout 3000 make -j16 2>&1 | tail -5
+timeout 3000 make -j16 2>&1 | grep -v '^Closed under' | tail -5
+[ ${PIPESTATUS[0]} -eq 0 ] || { echo 'setup FAILED: coq build'; exit 1; }
 cd ../_build/ml
 coqc -Q ../../coq/theories Dznpy ../../coq/theories/Extract/Extract.v > /dev/null
 cp ../../harness/ml/driver.ml .
+rm -f dznmodel
 ocamlfind ocamlopt -O3 -w -a model.mli model.ml driver.ml -o dznmodel 2>&1 | grep -v 'options -O3' || true
+[ -x dznmodel ] || { echo 'setup FAILED: OCaml model driver did not compile'; exit 1; }
 echo '(110 (97 10 98))' | ./dznmodel | grep -q '((97) (98))' && echo "setup ok"
